@@ -48,12 +48,14 @@ func e3BelowOneThird(p, total uint64) bool {
 }
 
 type e3World struct {
-	n      int
-	pv     tmconsensustest.PrivVals // base order; Val.Power overwritten with the run's powers
-	powers []uint64
-	total  uint64
-	byz    map[int]bool // base index -> Byzantine
-	rotate bool
+	n  int
+	pv tmconsensustest.PrivVals // base order; Val.Power overwritten with the run's powers
+	// scalePowers: see powerScale
+	scalePowers bool
+	powers      []uint64
+	total       uint64
+	byz         map[int]bool // base index -> Byzantine
+	rotate      bool
 
 	initAppHash []byte
 	genesisHash []byte
@@ -109,6 +111,8 @@ func e3NewWorld(rng *rand.Rand, n int, profile int, wantByz bool, rotate bool) *
 		w.pv[i].Val.Power = pows[i]
 	}
 	w.powers = pows
+	// rotating worlds also rescale the powers per height (not the 2^58 profile, which would overflow)
+	w.scalePowers = w.total < 1<<50
 	if wantByz {
 		var bp uint64
 		if heavy >= 0 {
@@ -194,11 +198,23 @@ func (w *e3World) order(h uint64) []int {
 	return out
 }
 
+// powerScale is the factor a rotating application applies to every validator's power at
+// height h: shares, and with them who is below one third, stay what they are, while the
+// total power (and every absolute threshold) differs from one height to the next.
+func (w *e3World) powerScale(h uint64) uint64 {
+	if !w.rotate || !w.scalePowers || h < 3 {
+		return 1
+	}
+	return []uint64{1, 5, 2, 9}[h%4]
+}
+
 func (w *e3World) vals(h uint64) []tmconsensus.Validator {
 	ord := w.order(h)
 	out := make([]tmconsensus.Validator, len(ord))
+	f := w.powerScale(h)
 	for i, b := range ord {
 		out[i] = w.pv[b].Val
+		out[i].Power *= f
 	}
 	return out
 }
@@ -420,6 +436,6 @@ func (w *e3World) describe() map[string]any {
 	return map[string]any{
 		"n": w.n, "powers": fmt.Sprint(w.powers), "total": w.total,
 		"byzantine": fmt.Sprint(w.byzList()), "byzantine_power": w.byzPower(),
-		"rotate": w.rotate,
+		"rotate": w.rotate, "rescale_powers_per_height": w.rotate && w.scalePowers,
 	}
 }
